@@ -1,4 +1,5 @@
 """Per-property configuration of the checks (what to build, how to run, what the evidence says)."""
+import os
 
 COMMON_ASSUMPTIONS = [
     "only executions produced by this run are judged (runtime monitoring): held means held on these cases",
@@ -14,7 +15,10 @@ ASAN = {"build": "asan"}
 # thorough tier only: the same harness without sanitizers under valgrind memcheck, on a scaled-down workload.
 # memcheck sees what ASan cannot: a branch or address computed from an uninitialised unit.
 MEMCHECK = {"build": "plain", "name": "memcheck", "tiers": ("thorough",), "tier_override": "quick", "scale": 0.1, "workers": 16,
-            "wrapper": ["valgrind", "--tool=memcheck", "--error-exitcode=99", "--quiet", "--undef-value-errors=yes", "--leak-check=no", "--num-callers=16"]}
+            # nouserintercepts: the harness replaces operator new/delete itself (on top of malloc, which memcheck still tracks);
+            # without it valgrind redirects the executable's operator new to its own and every delete looks mismatched
+            "wrapper": ["valgrind", "--tool=memcheck", "--error-exitcode=99", "--quiet", "--undef-value-errors=yes", "--leak-check=no", "--num-callers=16",
+                        "--soname-synonyms=somalloc=nouserintercepts", "--suppressions=" + os.path.join(os.path.dirname(os.path.dirname(os.path.abspath(__file__))), "tools", "valgrind.supp")]}
 
 
 
